@@ -46,25 +46,37 @@ theorem slice_int (xs : List Val) (n : Int) :
     · rfl
     · rw [take_ge_length (by omega), take_ge_length (by omega)]
 
-theorem slice_pair (xs : List Val) (skip limit : Int) (hl : 0 < limit)
-    (hs : 0 ≤ skip + xs.length) :
+theorem slice_pair (xs : List Val) (skip limit : Int) (hl : 0 < limit) :
     sliceOp (.arr [.int skip, .int limit]) xs = .ok (
       if skip ≥ 0 then (xs.drop skip.toNat).take limit.toNat
       else (xs.drop (xs.length - skip.natAbs)).take limit.toNat) := by
-  simp only [sliceOp, asPyInt]
+  have hnp : decide (limit ≤ 0) = false := by simpa using hl
+  simp only [sliceOp, nonPositive, hnp, asPyInt]
   congr 1
   by_cases hn : skip < 0
   · have hge : ¬ skip ≥ 0 := by omega
     simp only [hn, if_true, hge, if_false]
-    rw [pySlice_inrange xs (by omega) (by split <;> omega) (by split <;> omega)]
-    have h0 : ¬ ((xs.length : Int) + skip > xs.length) := by omega
-    simp only [h0, if_false]
-    have e1 : ((xs.length : Int) + skip).toNat = xs.length - skip.natAbs := by omega
-    rw [e1]
-    split
-    · congr 1; omega
-    · rw [take_ge_length (by simp only [List.length_drop]; omega),
-        take_ge_length (by simp only [List.length_drop]; omega)]
+    by_cases hfar : (xs.length : Int) + skip < 0
+    · simp only [hfar, if_true]
+      rw [pySlice_inrange xs (Int.le_refl _) (by split <;> omega) (by split <;> omega)]
+      have h0 : ¬ ((0 : Int) > xs.length) := by omega
+      simp only [h0, if_false]
+      have e1 : xs.length - skip.natAbs = (0 : Int).toNat := by omega
+      rw [e1]
+      split
+      · congr 1; omega
+      · rw [take_ge_length (by simp only [List.length_drop]; omega),
+          take_ge_length (by simp only [List.length_drop]; omega)]
+    · simp only [hfar, if_false]
+      rw [pySlice_inrange xs (by omega) (by split <;> omega) (by split <;> omega)]
+      have h0 : ¬ ((xs.length : Int) + skip > xs.length) := by omega
+      simp only [h0, if_false]
+      have e1 : ((xs.length : Int) + skip).toNat = xs.length - skip.natAbs := by omega
+      rw [e1]
+      split
+      · congr 1; omega
+      · rw [take_ge_length (by simp only [List.length_drop]; omega),
+          take_ge_length (by simp only [List.length_drop]; omega)]
   · have hge : skip ≥ 0 := by omega
     simp only [hn, if_false, hge, if_true]
     rw [pySlice_inrange xs (by omega) (by split <;> omega) (by split <;> omega)]
@@ -78,21 +90,41 @@ theorem slice_pair (xs : List Val) (skip limit : Int) (hl : 0 < limit)
       · rw [take_ge_length (by simp only [List.length_drop]; omega),
           take_ge_length (by simp only [List.length_drop]; omega)]
 
-/-- **`$slice`**: inside the domain the code keeps exactly the stated contiguous part -/
-theorem slice_spec (sv : Val) (xs : List Val) (h : sliceReasons sv xs = []) :
-    ∃ ys, slice sv xs = some ys ∧ sliceOp sv xs = .ok ys := by
+/-- a limit that is not positive is refused, whatever the skip and the array -/
+theorem slice_refused (xs : List Val) (skip limit : Int) (hl : limit ≤ 0) :
+    sliceOp (.arr [.int skip, .int limit]) xs = .error .opFail := by
+  have hnp : decide (limit ≤ 0) = true := by simpa using hl
+  simp only [sliceOp, nonPositive, hnp]
+
+/-- **`$slice`**: for a well-shaped operand the code keeps exactly the stated contiguous part,
+    and refuses exactly the operands the rule refuses -/
+theorem slice_spec (sv : Val) (xs : List Val) (h : sliceReasons sv = []) :
+    match slice sv xs with
+    | some ys => sliceOp sv xs = .ok ys
+    | none => sliceOp sv xs = .error .opFail := by
   unfold sliceReasons at h
   split at h
-  · next n => exact ⟨_, by simp [slice], slice_int xs n⟩
+  · next n => simp only [slice]; exact slice_int xs n
   · next skip limit =>
-    simp only [List.append_eq_nil_iff, ite_single_nil] at h
-    have hl : 0 < limit := by omega
-    have hs : 0 ≤ skip + xs.length := by omega
-    refine ⟨_, ?_, slice_pair xs skip limit hl hs⟩
-    have : ¬ limit ≤ 0 := by omega
-    simp only [slice, this, if_false]
-    split <;> rfl
+    by_cases hl : limit ≤ 0
+    · simp only [slice, hl, if_true]; exact slice_refused xs skip limit hl
+    · have h2 := slice_pair xs skip limit (by omega)
+      by_cases hs : skip ≥ 0
+      · simp only [hs, if_true] at h2
+        simp only [slice, hl, if_false, hs, if_true]; exact h2
+      · simp only [hs, if_false] at h2
+        simp only [slice, hl, if_false, hs]; exact h2
   · cases h
+
+theorem slice_spec_some {sv : Val} {xs ys : List Val} (h : sliceReasons sv = [])
+    (hs : slice sv xs = some ys) : sliceOp sv xs = .ok ys := by
+  have := slice_spec sv xs h
+  rw [hs] at this; exact this
+
+theorem slice_spec_none {sv : Val} {xs : List Val} (h : sliceReasons sv = [])
+    (hs : slice sv xs = none) : sliceOp sv xs = .error .opFail := by
+  have := slice_spec sv xs h
+  rw [hs] at this; exact this
 
 /-! ### `$elemMatch` -/
 
@@ -166,36 +198,71 @@ theorem derase_dset_absent {k : String} (v : Val) : ∀ {l : Fields}, dget k l =
 theorem bind_pure_id {α : Type} (x : R α) : (x >>= fun a => (pure a : R α)) = x := by
   cases x <;> rfl
 
-/-- a specification `{f: {op: operand}}` with an allowed operator: the copy is `{_id}` and the
-    operator is applied to it -/
-theorem single_op_copy {fs : Fields} {f opname : String} {operand : Val} (hf : f ≠ "_id")
-    (hop : allowedProjectionOperators.contains opname = true) :
-    copyWithDict fs [(f, .doc [(opname, operand)])] =
-      applyOp fs (attachId fs []) f [(opname, operand)] := by
+/-- a specification `{f: {$elemMatch: q}}`: the copy is `{_id}` and the operator is applied to
+    it -/
+theorem elemMatch_op_copy {fs : Fields} {f : String} {operand : Val} (hf : f ≠ "_id") :
+    copyWithDict fs [(f, .doc [("$elemMatch", operand)])] =
+      applyOp fs (attachId fs []) f [("$elemMatch", operand)] := by
   have e : ¬ f = "_id" := hf
-  have hx : extractOps [(f, Val.doc [(opname, operand)])] =
-      .ok ([(f, .doc [(opname, operand)])], []) := by
-    have hop' : opname ∈ allowedProjectionOperators := by simpa using hop
-    simp [extractOps, dkeys, hop', bind, Except.bind, pure, Except.pure]
-  have hb : baseCopy fs [] (.int 1) = .ok (attachId fs []) := by
+  have hx : extractOps [(f, Val.doc [("$elemMatch", operand)])] =
+      .ok ([(f, .doc [("$elemMatch", operand)])], []) := by
+    simp [extractOps, dkeys, allowedProjectionOperators, bind, Except.bind, pure, Except.pure]
+  have hka : (!(dhas "_id" [(f, Val.doc [("$elemMatch", operand)])]) &&
+      onlySlices [(f, .doc [("$elemMatch", operand)])]) = false := by
+    simp [onlySlices, dkeys]
+  have hb : baseCopy fs [] (.int 1) false = .ok (attachId fs []) := by
     simp [baseCopy, mixedValues, pyEq, bind, Except.bind, pure, Except.pure]
   unfold copyWithDict
-  simp only [dget, e, if_false, derase, Option.getD_none, hx, hb, bind, Except.bind, applyProjOps]
-  cases applyOp fs (attachId fs []) f [(opname, operand)] <;> rfl
+  simp only [dget, e, if_false, derase, Option.getD_none, hx, bind, Except.bind, applyProjOps]
+  rw [hka, hb]
+  dsimp only
+  cases applyOp fs (attachId fs []) f [("$elemMatch", operand)] <;> rfl
+
+theorem attachId_self (fs : Fields) : attachId fs fs = fs := by
+  unfold attachId
+  split
+  · next v hv => exact dset_same hv
+  · rfl
+
+/-- a specification `{f: {$slice: sv}}`: the copy is the whole document and the operator is
+    applied to it -/
+theorem slice_op_copy {fs : Fields} {f : String} {sv : Val} (hf : f ≠ "_id") :
+    copyWithDict fs [(f, .doc [("$slice", sv)])] = applyOp fs fs f [("$slice", sv)] := by
+  have e : ¬ f = "_id" := hf
+  have hx : extractOps [(f, Val.doc [("$slice", sv)])] =
+      .ok ([(f, .doc [("$slice", sv)])], []) := by
+    simp [extractOps, dkeys, allowedProjectionOperators, bind, Except.bind, pure, Except.pure]
+  have hka : (!(dhas "_id" [(f, Val.doc [("$slice", sv)])]) &&
+      onlySlices [(f, .doc [("$slice", sv)])]) = true := by
+    simp [onlySlices, dkeys, dhas, dget, e]
+  have hb : baseCopy fs [] (.int 1) true = .ok fs := by
+    simp [baseCopy, mixedValues, pyEq, bind, Except.bind, pure, Except.pure, attachId_self]
+  unfold copyWithDict
+  simp only [dget, e, if_false, derase, Option.getD_none, hx, bind, Except.bind, applyProjOps]
+  rw [hka, hb]
+  dsimp only
+  cases applyOp fs fs f [("$slice", sv)] <;> rfl
 
 /-- **`$slice` through find**: `{f: {$slice: sv}}` on a document whose field `f` holds the
-    array `xs` returns `f` holding the stated part of `xs` -/
-theorem slice_find {fs : Fields} {f : String} {sv : Val} {xs : List Val} (hf : f ≠ "_id")
-    (hxs : dget f fs = some (.arr xs)) (hD : sliceReasons sv xs = []) :
-    ∃ ys o, slice sv xs = some ys ∧
-      copyOnlyFields (.doc fs) (.doc [(f, .doc [("$slice", sv)])]) = .ok (.doc o) ∧
-      dget f o = some (.arr ys) := by
-  obtain ⟨ys, h1, h2⟩ := slice_spec sv xs hD
-  refine ⟨ys, dset f (.arr ys) (dset f (.arr xs) (attachId fs [])), h1, ?_, dget_dset_same _ _ _⟩
+    array `xs` returns the document with `f` holding the stated part of `xs`, every other
+    field kept as it is, in place -/
+theorem slice_find {fs : Fields} {f : String} {sv : Val} {xs ys : List Val} (hf : f ≠ "_id")
+    (hxs : dget f fs = some (.arr xs)) (hD : sliceReasons sv = []) (hs : slice sv xs = some ys) :
+    copyOnlyFields (.doc fs) (.doc [(f, .doc [("$slice", sv)])]) =
+      .ok (.doc (dset f (.arr ys) fs)) := by
+  have h2 := slice_spec_some hD hs
   simp only [copyOnlyFields]
-  rw [single_op_copy hf (by decide)]
-  simp [applyOp, dhas, dget_attachId_ne hf, hxs, dget, dget_dset_same, h2, bind, Except.bind,
-    pure, Except.pure, Except.map]
+  rw [slice_op_copy hf]
+  simp [applyOp, dhas, hxs, dget, h2, bind, Except.bind, pure, Except.pure, Except.map]
+
+/-- … and the query is refused when the rule refuses the operand (`limit ≤ 0`) -/
+theorem slice_find_refused {fs : Fields} {f : String} {sv : Val} {xs : List Val} (hf : f ≠ "_id")
+    (hxs : dget f fs = some (.arr xs)) (hD : sliceReasons sv = []) (hs : slice sv xs = none) :
+    copyOnlyFields (.doc fs) (.doc [(f, .doc [("$slice", sv)])]) = .error .opFail := by
+  have h2 := slice_spec_none hD hs
+  simp only [copyOnlyFields]
+  rw [slice_op_copy hf]
+  simp [applyOp, dhas, hxs, dget, h2, bind, Except.bind, Except.map]
 
 /-- **`$elemMatch` through find**: `{f: {$elemMatch: q}}` returns `f` holding exactly the first
     element of the array the condition holds for, and no `f` when there is none -/
@@ -224,7 +291,7 @@ theorem elemMatch_find {fs : Fields} {f : String} {q : Val} {xs : List Val} {r :
         simp [applyOp, dhas, dget_attachId_ne hf, hxs, dget, dget_dset_same, hm, bind,
           Except.bind, pure, Except.pure, dset_dset]
   simp only [copyOnlyFields] at h
-  rw [single_op_copy hf (by decide), happ] at h
+  rw [elemMatch_op_copy hf, happ] at h
   cases hm : firstMatch q xs with
   | error e => simp [hm, Except.map] at h
   | ok m =>
